@@ -234,6 +234,17 @@ func hookCallOrder(r *Report, p *Program, rule string) {
 	// decode what adjustResponse returned, into the caller's response
 	okD := engine.SameValue(um.Common().Args[0], engine.ResultValue(adj.Instr, 0)) && E(um.Common().Args[1]) == "p2"
 	r.Check(rule, FK(call)+"[decode-adjusted-body]", p.InstrPos(um.Instr), okD, "decodes adjustResponse's body into the caller's response", "the decoded bytes are not adjustResponse's result / not decoded into the caller's response")
+	// ownership: the bytes handed to adjustResponse (which may cache them) are the fresh result of io.ReadAll
+	okB := false
+	for _, ra := range callsTo(call, false, "io.ReadAll") {
+		if engine.SameValue(adj.Arg(2), engine.ResultValue(ra.Instr, 0)) {
+			okB = true
+		}
+	}
+	r.Check(rule, FK(call)+"[body-owned]", p.InstrPos(adj.Instr), okB, "response bytes given to adjustResponse are io.ReadAll's own allocation", "the body handed to adjustResponse is "+E(adj.Arg(2))+", not the freshly allocated io.ReadAll result: a cached body may alias memory that is reused (e.g. a pooled buffer) and stop matching its ETag")
+	// strictness: default option set (duplicate + unknown fields)
+	okO := len(um.Common().Args) == 3 && isNilConst(um.Common().Args[2])
+	r.Check(rule, FK(call)+"[strict-options-default]", p.InstrPos(um.Instr), okO, "UnmarshalStrict with its default options (unknown and duplicate fields)", "UnmarshalStrict is given explicit options: that replaces the default set, so duplicate or unknown fields are no longer reported in strict mode")
 	for name, t := range map[string]*engine.CallSite{"Do": do, "adjustResponse": adj, "UnmarshalStrict": um} {
 		ok, why := errorDiscipline(p, call, t.Instr, nil, nil)
 		r.Check(rule, FK(call)+"→"+name+"[error]", p.InstrPos(t.Instr), ok, "error returned", why)
